@@ -6,7 +6,7 @@ PROPS=${PROPS:-$(python3 -c "import json;print(' '.join(c['property_id'] for c i
 for p in $PROPS; do
   for s in $SEEDS; do
     out=$(VERIF_SEED=$s ./check $p ${TIER:-quick} 2>&1); rc=$?
-    echo "$p seed=$s rc=$rc $(echo "$out" | grep '^check' | cut -c1-120)"
+    echo "$p seed=$s rc=$rc $(echo "$out" | grep '^check' | cut -c1-220)"
     echo "$out" | grep "^violation\|^KNOWN\|CHECK-ERROR\|worker error" | cut -c1-260 | sed 's/^/    /'
   done
 done
